@@ -2,6 +2,7 @@
 # developer aid: run every registered check at one tier (default quick); prints one line per check
 cd "$(dirname "$0")"
 tier=${1:-quick}
+mkdir -p scratch
 for c in $(python3 -c "import json; print(' '.join(x['property_id'] for x in json.load(open('MANIFEST.json'))['checks']))"); do
   ./check.sh $c $tier > scratch/last-$c.log 2>&1; rc=$?
   echo "$c rc=$rc $(grep "^$c $tier" scratch/last-$c.log | tail -1) $(grep -c '^VIOLATION' scratch/last-$c.log) violations $(grep -c '^KNOWN-FINDING' scratch/last-$c.log) known"
